@@ -58,6 +58,10 @@ def scen_job(which, prop):
                 shards=dict(quick=4, thorough=4))
 
 
+def d14_job(which, prop):
+    return dict(name=f"scen-{which}", variant="debug", stage=0, args=["scen", "--which", which, "--prop", prop, "--tier", "{tier}"], shards=dict(quick=1, thorough=1))
+
+
 def seq_job(check, variant="debug", tiers=("quick", "thorough"), name=None):
     return dict(name=name or f"seq-{check}-{variant}", variant=variant, stage=0, tiers=list(tiers),
                 args=["seq", "--check", check, "--tier", "{tier}"], shards=dict(quick=1, thorough=1))
@@ -79,12 +83,12 @@ CHECKS = {
         accept=["C01"], assumptions=RC_ASSUME, floor=dict(quick=50, thorough=500),
     ),
     "C02": dict(
-        jobs=rc_jobs("c02", "C02", "snap_destruct", focused="c02f", extra=[choreo_job("C02", "snap_destruct"), scen_job("c02", "C02"), dict(name="scen-d13", variant="debug", stage=0, args=["scen", "--which", "d13", "--prop", "C02"], shards=dict(quick=1, thorough=1)), dict(name="scen-d10", variant="debug", stage=0, args=["scen", "--which", "d10", "--prop", "C02"], shards=dict(quick=1, thorough=1))]),
+        jobs=rc_jobs("c02", "C02", "snap_destruct", focused="c02f", extra=[choreo_job("C02", "snap_destruct"), scen_job("c02", "C02"), dict(name="scen-d13", variant="debug", stage=0, args=["scen", "--which", "d13", "--prop", "C02"], shards=dict(quick=1, thorough=1)), dict(name="scen-d10", variant="debug", stage=0, args=["scen", "--which", "d10", "--prop", "C02"], shards=dict(quick=1, thorough=1)), d14_job("d14s", "C02")]),
         rule=RULE_RC + "the execution contained a destruct attempt (root or cascade) on an object for which a Snapshot record existed",
         accept=["C02"], assumptions=RC_ASSUME, floor=dict(quick=50, thorough=500),
     ),
     "C03": dict(
-        jobs=rc_jobs("c03", "C03", "weak_dealloc", focused="c03f", extra=[choreo_job("C03", "weak_dealloc", "c03g"), choreo_job("C03", "weak_dealloc", "c03h")]),
+        jobs=rc_jobs("c03", "C03", "weak_dealloc", focused="c03f", extra=[choreo_job("C03", "weak_dealloc", "c03g"), choreo_job("C03", "weak_dealloc", "c03h"), d14_job("d14w", "C03")]),
         rule=RULE_RC + "the execution deallocated an object that had at least one weak holder",
         accept=["C03"], assumptions=RC_ASSUME, floor=dict(quick=50, thorough=500),
     ),
@@ -94,26 +98,29 @@ CHECKS = {
         accept=["C04"], assumptions=RC_ASSUME, floor=dict(quick=50, thorough=500),
     ),
     "C05": dict(
-        jobs=rc_jobs("c05", "C05", "upgrade_race", focused="c05f", extra=[choreo_job("C05", "upgrade_race"), choreo_job("C05", "upgrade_race", "c01g"), scen_job("c05", "C05")]),
+        jobs=rc_jobs("c05", "C05", "upgrade_race", focused="c05f", extra=[choreo_job("C05", "upgrade_race"), choreo_job("C05", "upgrade_race", "c01g"), scen_job("c05", "C05"), seq_job("c05", "debug"), seq_job("c05", "release")]),
         rule=RULE_RC + "an upgrade whose interval overlaps or follows a destruct attempt on its target",
         accept=["C05"], accept_sig=[r"origin=WeakSnapshot::upgrade", r"via=(Weak|WeakSnapshot)::upgrade"], assumptions=RC_ASSUME, floor=dict(quick=20, thorough=200),
     ),
     "C08": dict(
-        jobs=rc_jobs("c08", "C08", "overlap_mutators,cas_epoch_differs"),
+        jobs=rc_jobs("c08", "C08", "overlap_mutators,cas_epoch_differs", focused="c08r"),
         rule=RULE_RC + "a cell history with >=2 overlapping mutators, or a CAS whose expected value carried another epoch stamp than the stored word",
         accept=["C08"], accept_sig=[r"^C04\|audit-strong-mismatch"], assumptions=RC_ASSUME, floor=dict(quick=50, thorough=500),
     ),
     "C09": dict(
-        jobs=rc_jobs("c09", "C09", "overlap_mutators,wcas_epoch_differs"),
+        jobs=rc_jobs("c09", "C09", "overlap_mutators,wcas_epoch_differs", focused="c09r"),
         rule=RULE_RC + "an AtomicWeak history with >=2 overlapping mutators, or a CAS whose expected value carried another epoch stamp than the stored word",
         accept=["C09"], accept_sig=[r"^C04\|audit-weak-mismatch"], assumptions=RC_ASSUME, floor=dict(quick=50, thorough=500),
     ),
     "C06": dict(
-        jobs=[seq_job("c06", "release"), seq_job("c06", "debug", tiers=("thorough",))],
+        jobs=[seq_job("c06", "release"), seq_job("c06", "debug", tiers=("thorough",)), choreo_job("C06", "snap_destruct")],
         rule="inputs = (shape, n, link age, epoch residue mod 16, position of an externally held node): chains n=1..50 000 (thorough: 1 000 000), "
              "binary trees up to depth 17, all 16 residues for n<=5000; for each the number of global-epoch advances between dropping the head and "
-             "the last destructor is compared with 12*(1+ceil(n/1024)); distinct = distinct inputs; every input is non-trivial (it runs a real cascade)",
-        accept=["C06"], assumptions=SEQ_ASSUME + ["the bound 12*(1+ceil(n/1024)) is my reading of 'a small constant plus n/1024' in units of grace periods (a grace period was measured at 3-15 advances)"],
+             "the last destructor is compared with 12*(1+ceil(n/1024)); plus shapes with shared nodes (two-level skip list, ladder), chains whose every node also points to an externally "
+             "held node that its holder keeps using (re-stamping) or not, a tree with a held leaf, and chains whose head / node at the recursion cut-off is re-acquired through a Weak and released "
+             "again 0..3 rounds after the head was dropped; plus the choreographed late-reader-against-a-due-cascade programs (c02g), where a cascade must skip a child that a pinned "
+             "thread still references; distinct = distinct inputs; every input is non-trivial (it runs a real cascade)",
+        accept=["C06"], accept_sig=[r"^C02\|destruct-while-snapshot\|.*\|child"], assumptions=SEQ_ASSUME + ["the bound 12*(1+ceil(n/1024)) is my reading of 'a small constant plus n/1024' in units of grace periods (a grace period was measured at 3-15 advances)"],
         floor=dict(quick=100, thorough=300),
     ),
     "C07": dict(
@@ -125,24 +132,36 @@ CHECKS = {
         floor=dict(quick=20, thorough=40),
     ),
     "C10": dict(
-        jobs=[seq_job("c10", "debug"), seq_job("c10", "release")] + rc_jobs("c04", "C10", "any_destruct", s_secs=(8, 60), p_secs=(4, 30), asan=False)[:1],
+        jobs=[seq_job("c10", "debug"), seq_job("c10", "release")] + rc_jobs("c04", "C10", "any_destruct", s_secs=(8, 60), p_secs=(4, 30), asan=False)[:1]
+             + [dict(name="c10b-S", variant="debug", stage=0, args=["rc", "--profile", "c10b", "--mode", "S", "--prop", "C10", "--relevant", "any_destruct"],
+                     shards=dict(quick=10, thorough=16), secs=dict(quick=12, thorough=200)),
+                dict(name="c10b-P-release", variant="release", stage=1, threads=3, args=["rc", "--profile", "c10b", "--mode", "P", "--prop", "C10", "--relevant", "any_destruct"],
+                     shards=dict(quick=3, thorough=5), secs=dict(quick=5, thorough=60))],
         rule="sequential: every N in {0,1,2,3,8,64} for new_many/weak_many, counts {0..5,64,1000} x every consumed prefix x drop/abort for new_many_iter, "
              "seeded release orders through drop/finalize/cell; after every step strong == owners left and the destructor count is 0 until the last owner "
-             "is gone and 1 after bounded rounds; plus the bulk ops inside the concurrent RC programs (ledger kind bulk); distinct = distinct (ctor, N, prefix, release) inputs / schedules",
-        accept=["C10"], assumptions=SEQ_ASSUME, floor=dict(quick=50, thorough=100),
+             "is gone and 1 after bounded rounds; owners regained through a weak_many share before / while / after the pending destruction attempt (held 0..5 rounds); "
+             "plus the bulk ops inside the concurrent RC programs (ledger kind bulk; profile c10b = bulk makers / first-downgrade-by-weak_many against strong churn, "
+             "any ledger / leak / WEAKED violation on an object that went through a bulk call counts); distinct = distinct (ctor, N, prefix, release) inputs / schedules",
+        accept=["C10"], accept_sig=[r"\|bulk$", r"via=Rc::weak_many"], assumptions=SEQ_ASSUME, floor=dict(quick=50, thorough=100),
     ),
     "C11": dict(
-        jobs=[seq_job("c11", "debug"), seq_job("c11", "release", tiers=("thorough",))],
+        jobs=[seq_job("c11", "debug"), seq_job("c11", "release", tiers=("thorough",))]
+             + [dict(name=f"{pf}-S", variant="debug", stage=0, args=["rc", "--profile", pf, "--mode", "S", "--prop", "C11", "--relevant", rel],
+                     shards=dict(quick=8, thorough=16), secs=dict(quick=10, thorough=120)) for pf, rel in (("c08r", "cas_epoch_differs"), ("c09r", "wcas_epoch_differs"))],
         rule="(i) shimmed Tagged ops on synthetic words: alignments 1..64 x addresses {0, align, 2^47-a, 2^56-a, 2^60-a, random} x tags 0..2*align x all 16 timestamps "
              "against a reference bit model; (ii) public API on real objects with payload alignments 1..64: every tag, stored at 16 epoch residues and loaded back, "
-             "tagged/timestamped null; distinct = distinct (alignment, address, tag, timestamp) inputs, all non-trivial",
-        accept=["C11"], assumptions=SEQ_ASSUME, floor=dict(quick=1000, thorough=1000),
+             "tagged/timestamped null; (iii) concurrent cell programs (profiles c08r/c09r: CAS-ers against re-stampers) in which the same pointer is re-written at other epochs while CASes are in flight: "
+             "a compare_exchange must never fail with current ptr_eq expected (the stamp must stay invisible); distinct = distinct (alignment, address, tag, timestamp) inputs / schedules",
+        accept=["C11"], accept_sig=[r"^C0[89]\|cas-failed-though-equal"], assumptions=SEQ_ASSUME, floor=dict(quick=1000, thorough=1000),
     ),
     "C12": dict(
-        jobs=[seq_job("c12", "debug"), seq_job("c12", "release", tiers=("thorough",))],
+        jobs=[seq_job("c12", "debug"), seq_job("c12", "release", tiers=("thorough",)), scen_job("c12", "C12"), choreo_job("C12", "snap_destruct")],
         rule="(i) every count-word updater on boundary and random field values; (ii) the modular decision for current epochs 3..80 and around 2^16, 2^32, 2^40 x true ages -1..64; "
-             "(iii) end-to-end parent->child cascade-vs-defer decisions at all 16 residues x link ages x child stamp ages, observed at the destructor boundary; distinct = distinct inputs",
-        accept=["C12"], assumptions=SEQ_ASSUME, floor=dict(quick=1000, thorough=1000),
+             "(iii) end-to-end parent->child cascade-vs-defer decisions at all 16 residues x link ages x child stamp ages, observed at the destructor boundary; "
+             "(iv) the same decision under concurrency, where the true age of a stamp is known from the choreography: a sibling released in the current epoch while the disposal of an earlier "
+             "sibling's long subtree re-pins across several advances (scenario d7, all residues), and late readers / unlinkers against a due cascade stalled inside its child loop (c02g): "
+             "a cascade child destructed while a pinned thread references it = a stamp of true age < 3 classified as old enough; distinct = distinct inputs / schedules",
+        accept=["C12"], accept_sig=[r"^C02\|destruct-while-snapshot\|.*\|child"], assumptions=SEQ_ASSUME, floor=dict(quick=1000, thorough=1000),
     ),
     "C19": dict(
         jobs=[seq_job("c19", "debug")],
@@ -202,10 +221,11 @@ CHECKS.update({
     "C13": dict(jobs=ebr_jobs("c13", "C13") + [
                     dict(name="scen-d13", variant="debug", stage=0, args=["scen", "--which", "d13", "--prop", "C13"], shards=dict(quick=1, thorough=1)),
                     dict(name="c16rc-S", variant="debug", stage=0, args=["rc", "--profile", "c16rc", "--mode", "S", "--prop", "C13", "--relevant", "any_destruct"],
-                         shards=dict(quick=10, thorough=16), secs=dict(quick=20, thorough=200))],
+                         shards=dict(quick=10, thorough=16), secs=dict(quick=20, thorough=200)),
+                    choreo_job("C13", "snap_destruct"), d14_job("d14s", "C13")],
                 accept_sig=[r"^C02\|destruct-while-snapshot", r"^C02\|deref-dead"], rule=RULE_EBR + "a closure was deferred while at least one foreign guard was registered",
                 accept=["C13"], assumptions=EBR_ASSUME, floor=dict(quick=50, thorough=500)),
-    "C14": dict(jobs=ebr_jobs("c14", "C14") + rc_jobs("c14", "C14", "cascade", s_secs=(8, 60), p_secs=(4, 30), asan=False)[:1],
+    "C14": dict(jobs=ebr_jobs("c14", "C14") + rc_jobs("c14", "C14", "cascade", s_secs=(8, 60), p_secs=(4, 30), asan=False)[:1] + [d14_job("d14", "C14")],
                 rule=RULE_EBR + "the global epoch advanced while a foreign guard was registered (every yield point samples the global epoch and every registered guard's announced epoch)",
                 accept=["C14"], assumptions=EBR_ASSUME, floor=dict(quick=50, thorough=500)),
     "C15": dict(jobs=ebr_jobs("c15", "C15"), rule=RULE_EBR + "at least one closure was deferred (each execution ends with survivor rounds or with dropping the collector and checks every closure's counter == 1)",
@@ -214,6 +234,7 @@ CHECKS.update({
                     dict(name="c16-enum", variant="release", stage=0, args=["c16enum", "--len", "{len}"], shards=dict(quick=1, thorough=1)),
                     dict(name="scen-d10", variant="debug", stage=0, args=["scen", "--which", "d10", "--prop", "C16"], shards=dict(quick=1, thorough=1)),
                     dict(name="scen-d13", variant="debug", stage=0, args=["scen", "--which", "d13", "--prop", "C16"], shards=dict(quick=1, thorough=1)),
+                    d14_job("d14", "C16"),
                     dict(name="c16rc-S", variant="debug", stage=0, args=["rc", "--profile", "c16rc", "--mode", "S", "--prop", "C16", "--relevant", "any_destruct"],
                          shards=dict(quick=6, thorough=16), secs=dict(quick=15, thorough=200)),
                 ]),
